@@ -134,3 +134,92 @@ func c19Check(tier string) int {
 func init() {
 	checks["C19"] = &CheckSpec{ID: "C19", Custom: c19Check}
 }
+
+func c17Check(tier string) int {
+	start := time.Now()
+	repo := repoDir()
+	tmp, _ := os.MkdirTemp("", "c17")
+	defer os.RemoveAll(tmp)
+	ov := filepath.Join(tmp, "overlay.json")
+	ovj, _ := json.Marshal(map[string]any{"Replace": map[string]string{repo + "/internal/simulation/zz_verif_mc_test.go": verifDir() + "/e5/simmc/sim_mc_test.go.src"}})
+	os.WriteFile(ov, ovj, 0o644)
+	outFile := filepath.Join(tmp, "c17.json")
+	k := "1"
+	if tier == "thorough" {
+		k = "2"
+	}
+	out, err := runGoTest(repo, []string{"C17_TIER=" + tier, "C17_K=" + k, "C17_OUT=" + outFile},
+		"-overlay="+ov, "-vet=off", "-count=1", "-timeout", "120m", "-run", "TestC17MC", "./internal/simulation/")
+	var res struct {
+		Executions int64    `json:"executions"`
+		Points     int64    `json:"scheduling_points"`
+		Distinct   int64    `json:"distinct_final_height_vectors"`
+		PerCfg     []string `json:"per_config"`
+		Exhaustive bool     `json:"exhaustive"`
+		Samples    []any    `json:"samples"`
+		Failures   []struct {
+			Key     string `json:"key"`
+			Msg     string `json:"msg"`
+			Choices []int  `json:"choices"`
+		} `json:"failures"`
+	}
+	b, rerr := os.ReadFile(outFile)
+	if rerr != nil || json.Unmarshal(b, &res) != nil {
+		fmt.Fprintln(os.Stderr, "C17 driver did not produce a result:", err, "\n", tail(out, 3000))
+		return 2
+	}
+	fails := map[string]c06fail{}
+	for _, f := range res.Failures {
+		fails[f.Key] = c06fail{f.Key, fmt.Sprintf("%s; schedule (choice per scheduling point, 0=FIFO): %v", f.Msg, f.Choices)}
+	}
+	if err != nil && len(fails) == 0 {
+		fmt.Fprintln(os.Stderr, "C17 driver failed:\n", tail(out, 3000))
+		return 2
+	}
+	// free-running pass under the race detector (the cooperative driver hides data races)
+	raceOut, raceErr := runGoTest(repo, nil, "-race", "-overlay="+ov, "-vet=off", "-count=1", "-timeout", "30m", "-run", "TestC17Free", "./internal/simulation/")
+	raceNote := "free-running -race pass: ok"
+	if strings.Contains(raceOut, "DATA RACE") {
+		fails["C17/data-race-in-free-run"] = c06fail{"C17/data-race-in-free-run", tail(raceOut, 2500)}
+	} else if raceErr != nil {
+		if strings.Contains(raceOut, "free run: validator") {
+			fails["C17/chain-too-short-free-run"] = c06fail{"C17/chain-too-short-free-run", tail(raceOut, 1500)}
+		} else {
+			fmt.Fprintln(os.Stderr, "C17 free-running pass failed to run:\n", tail(raceOut, 3000))
+			return 2
+		}
+	}
+	known := loadKnown()
+	exit, nviol := 0, 0
+	var lines []string
+	for key, f := range fails {
+		path := fmt.Sprintf("%s/replays/C17-%08x.json", outDir(), uint32(fnvStr(key)))
+		writeJSON(path, map[string]any{"property": "C17", "key": key, "msg": f.msg})
+		if what, ok := known.open("C17", key); ok {
+			lines = append(lines, fmt.Sprintf("KNOWN-FINDING: property=C17 %s [%s]", what, key))
+			continue
+		}
+		nviol++
+		exit = 1
+		lines = append(lines, fmt.Sprintf("VIOLATION property=C17 replay=%s", path))
+		fmt.Fprintf(os.Stderr, "violation %s: %s\n", key, f.msg)
+	}
+	ev := &Evidence{PropertyID: "C17", Tier: tier, Seed: seedEnv(), Level: "model_checking", WallS: time.Since(start).Seconds(), Violations: nviol,
+		Assumptions: []string{"the harness controls deliveries and virtual time, not the Go scheduler: node goroutines share no mutable state except the channels the harness serialises (argued, plus the free-running -race pass)",
+			"ECDSA keys, signatures and mempool iteration order come from real randomness; schedules address nodes by validator index and results are compared by heights/views, not hashes",
+			"deviations (queue jump, hold until quiescence, early second) are taken only inside the per-config window DevSeconds; deviated schedules run 60 virtual seconds, the default one 120"},
+		Coverage: map[string]any{"states": res.Points, "transitions": res.Points, "traces_validated_against_impl": res.Executions, "samples": res.Samples,
+			"executions": res.Executions, "exhaustive": res.Exhaustive, "distinct_final_height_vectors": res.Distinct, "per_config": res.PerCfg, "deviation_bound_k": k,
+			"rule": "stateless depth-first exploration of delivery schedules of the real simulation program in a synctest bubble; scheduling points = {deliver one pending payload, hold the oldest until quiescence, let a second pass}; default FIFO; all schedules with <=k deviations inside the window; states/transitions = scheduling points executed on the real program; every execution is itself a run of the implementation",
+			"race_pass": raceNote, "known_findings_printed": lines}}
+	writeEvidence(ev)
+	for _, l := range lines {
+		fmt.Println(l)
+	}
+	fmt.Printf("C17 %s: executions=%d scheduling_points=%d distinct_outcomes=%d exhaustive=%v violations=%d wall=%.1fs\n", tier, res.Executions, res.Points, res.Distinct, res.Exhaustive, nviol, time.Since(start).Seconds())
+	return exit
+}
+
+func init() {
+	checks["C17"] = &CheckSpec{ID: "C17", Custom: c17Check}
+}
